@@ -625,13 +625,15 @@ static void op_newcont(const Op* op) {
       int aoid = new_obj(c, HK_ARRN, cls == CL_RAW ? CL_MANAGED : cls);
       slot_store(s, aoid);
       int cnt = 1 + (int)((op->a[1] / 105) % 3);
-      for (int i = 0; i < cnt; i++) { int qq = pick_node(op->a[0] + 3 * i); if (qq >= 0) arrn_store(aoid, qq, i == 2 ? 1 : 0, op->a[2]); }
+      for (int i = 0; i < cnt; i++) {
+        compute_reach();            /* the slot just overwritten may have held the only reference to a candidate */
+        int qq = pick_node(op->a[0] + 3 * i); if (qq >= 0) arrn_store(aoid, qq, i == 2 ? 1 : 0, op->a[2]); }
       stat_add("heap.new_array_of_nodes", 1);
       return;
     }
   }
   int retyped_from = -1;
-  if ((kind == HK_ARR || kind == HK_LST) && (op->a[1] / 7) % 3 == 0) {
+  if ((kind == HK_ARR || kind == HK_LST) && ((op->a[1] / 7) % 3 == 0 || g_focus == 5)) {
     for (int t = 0; t < 6 && retyped_from < 0; t++) { int q = pick_obj(op->a[0] + t, 1);
       if (q >= 0 && (O[q].kind == HK_ARR || O[q].kind == HK_LST) && obj_traversed(&O[q]) && CM[O[q].cidx].n > 0) retyped_from = q; }
   }
@@ -675,6 +677,9 @@ static void op_link(const Op* op) {
   }
   int src = pick_obj(op->a[0], 1); if (src < 0) return;
   int dst = pick_obj(op->a[1], 0); if (dst < 0) return;
+  if (g_focus == 5 && (op->a[1] & 1)) {        /* the C05 check: containers mostly refer to Boxes */
+    for (int t = 0; t < 12; t++) { int q = pick_obj(op->a[1] + t, 0); if (q >= 0 && O[q].kind == HK_BOX) { dst = q; break; } }
+  }
   Obj* s = &O[src]; var d = O[dst].ptr;
   int64_t a = op->a[2]; uint64_t ua = (uint64_t)(a < 0 ? -a : a);
   /* known finding (see known_findings.jsonl): a cycle made only of unregistered Tuples (new_raw, or allocated while the
